@@ -1,0 +1,14 @@
+//go:build verif
+
+package sm9
+
+// VerifGate, when set by the verification harness, is called at the lazy-initialisation points of
+// this package (inside the sync.Once bodies and right after Do returns). It exists only with the
+// build tag "verif".
+var VerifGate func(site string)
+
+func verifGate(site string) {
+	if g := VerifGate; g != nil {
+		g(site)
+	}
+}
